@@ -82,12 +82,12 @@ Section Generic.
     destruct e_same as [_ [_ [Hw _]]]. pose proof e_values as V. rewrite Hw in V.
     rewrite (wire_value_lookup e _ _ V n_ddata (eval e (ArrSel n_mem 32 (spec_daddr (r_fetch s / 16) (r_fetch s mod 16))))).
     - cbn [eval]. rewrite (ev_spec_daddr e s (var e n_ddata) W e_ok). rewrite (ok_mem _ _ _ e_ok).
-      change (2 ^ 32) with M32. apply Z.mod_small. destruct W as [_ [_ [_ [_ Hm]]]]. apply Hm.
+      change (2 ^ 32) with M32. apply Z.mod_small. destruct W as [_ [_ [_ [_ Hm]]]]. apply Hm. apply r_daddr_nonneg.
     - unfold spec. cbn [wires map]. unfold evalp. cbn [fst snd]. right. left. reflexivity.
   Qed.
 
   Lemma dd_range : 0 <= var e n_ddata < M32.
-  Proof. rewrite e_ddata. destruct W as [_ [_ [_ [_ Hm]]]]. apply Hm. Qed.
+  Proof. rewrite e_ddata. destruct W as [_ [_ [_ [_ Hm]]]]. apply Hm. apply r_daddr_nonneg. Qed.
 
   Theorem cycle_is_ref : cycle d s = ref_cycle s.
   Proof.
@@ -101,14 +101,48 @@ Section Generic.
   Theorem outs_are_ref : outs d s = [("o_syscall"%string, ref_syscall s); ("o_syscall_valid"%string, ref_syscall_valid s)].
   Proof.
     unfold outs. fold e. destruct e_same as [Ho _]. rewrite Ho. unfold spec. cbn [outputs map]. unfold evalp. cbn [fst snd].
-    cbn [eval]. fold A. rewrite (ev_A e s _ W e_ok). change (2 ^ 0) with 1. change (2 ^ 2) with 4. rewrite Z.div_1_r. reflexivity.
+    cbn [eval]. fold xA. rewrite (ev_A e s _ W e_ok). change (2 ^ 0) with 1. change (2 ^ 2) with 4. rewrite Z.div_1_r. reflexivity.
   Qed.
 
   Theorem fetch_is_ref : wire d s n_fdata = r_fetch s.
   Proof. exact e_fetch. Qed.
 End Generic.
 
+(* ------------------------------------------------------------------ reset: a clock edge with i_rst = 1 clears the registers,
+   whatever the state, the fetched byte and the x constants *)
+Definition reset_check (d : design) : bool :=
+  wires_ordered (wires d) && not_wire d "i_rst" && first_wire_is_fetch d &&
+  forallb (fun k => pairs_ok (sub2 n_fdata "i_rst" k 1) (next d) [(n_areg, C 0); (n_breg, C 0); (n_oreg, C 0); (n_pc, C 0)]) bytes256.
+
+Section Reset.
+  Variable d : design.
+  Hypothesis CHK : reset_check d = true.
+  Variables (s : rstate) (xv : nat -> Z).
+  Let e := cycle_env d 1 xv s.
+
+  Theorem reset_clears : let s' := cycle_gen d 1 xv s in r_pc s' = 0 /\ r_areg s' = 0 /\ r_breg s' = 0 /\ r_oreg s' = 0.
+  Proof.
+    pose proof CHK as K. unfold reset_check in K. repeat (apply andb_prop in K; let H := fresh "H" in destruct K as [K H]).
+    assert (Hr : var e "i_rst" = 1).
+    { unfold e, cycle_env. rewrite env_wires_var_other by (apply negb_true_iff; exact H1). reflexivity. }
+    assert (Hf : 0 <= var e n_fdata < 256).
+    { pose proof (cycle_env_wire_values d 1 xv s K) as V. fold e in V. cbv zeta in V.
+      unfold first_wire_is_fetch in H0. destruct (wires d) as [|w r]; [discriminate|]. apply andb_prop in H0. destruct H0 as [P1 P2].
+      apply String.eqb_eq in P1. cbn [map] in V. injection V as V _. unfold evalp in V. cbn [fst snd] in V.
+      rewrite <- P1, V, (exp_ok_sound e nosub _ _ (nosub_agrees e) P2). unfold x_fetch. cbn [eval]. change (2 ^ 8) with 256.
+      apply Z.mod_pos_bound. lia. }
+    rewrite forallb_forall in H. specialize (H _ (in_bytes256 _ Hf)).
+    pose proof (pairs_ok_sound e _ (sub2_agrees e n_fdata "i_rst" _ _ eq_refl Hr) _ _ H) as E.
+    cbv zeta. unfold cycle_gen. fold e. rewrite E. repeat split; reflexivity.
+  Qed.
+End Reset.
+
 (* ------------------------------------------------------------------ the generated design of this run *)
+Lemma reset_check_true : reset_check RtlHex.design = true.
+Proof. vm_compute. reflexivity. Qed.
+Theorem rtl_reset_clears : forall s xv, let s' := cycle_gen RtlHex.design 1 xv s in r_pc s' = 0 /\ r_areg s' = 0 /\ r_breg s' = 0 /\ r_oreg s' = 0.
+Proof. intros s xv. exact (reset_clears _ reset_check_true s xv). Qed.
+
 Lemma hex_check_true : hex_check RtlHex.design = true.
 Proof. vm_compute. reflexivity. Qed.
 
